@@ -193,6 +193,16 @@ def page_reference_rule(chk, facts, rule):
                        'the same-page test uses the page of PC+%d, the instruction is %s words long: at the last words of a '
                        'ROM page a reachable target is rejected and an unreachable one is encoded truncated' %
                        (k, '/'.join(str(x) for x in sorted(lens)) or '?'))
+        # the bare counter as page reference (no "+ length" at all)
+        for b, i, ln, c in f.calls('ChkSamePage'):
+            a0 = nocast(c[2][0]) if c[2] else None
+            if a0 is not None and a0[0] == 'call' and callee_name(a0) == 'EProgCounter':
+                n += 1
+                chk.ob(rule, 'code4004.c:%s:page-of-PC+0' % f.name, not lens, f.loc(ln),
+                       'no instruction length to add' if not lens else
+                       'the same-page test uses the page of the instruction\'s own address, the instruction is %s words long: at '
+                       'the last words of a ROM page a reachable target is rejected and an unreachable one is encoded truncated' %
+                       '/'.join(str(x) for x in sorted(lens)))
     d = facts.func('deco4004.c', 'Disassemble_4004') if 'Disassemble_4004' in facts.unit('deco4004.c').funcs else None
     if d is None:
         for f in facts.unit('deco4004.c').funcs.values():
